@@ -26,6 +26,7 @@ func init() {
 			{ID: "C16.5", Desc: "backend state: lock discipline, fields written only while opening", Run: func(c *Ctx) { ruleC14_1(c2(c, "C16.5")); ruleC16_5(c) }, MinSites: 3},
 			{ID: "C16.6", Desc: "goroutine hand-off through channels only", Run: ruleC16_6, MinSites: 2},
 			{ID: "C16.7", Desc: "in-place mutation only on per-request objects", Run: ruleC16_7, MinSites: 1},
+			{ID: "C16.8", Desc: "the memory backend never hands out or keeps a caller-visible buffer", Run: func(c *Ctx) { ruleC14_2(c); renameRule(c, "C14.2", "C16.8") }, MinSites: 2},
 		},
 	})
 }
